@@ -974,6 +974,10 @@ func (f *framer) parsePreparedMetadata() preparedMetadata {
 		if pkeyCount < 0 {
 			panic(fmt.Errorf("received negative partition key count: %d", pkeyCount))
 		}
+		if len(f.buf) < 2*pkeyCount {
+			// every partition key index is a [short]
+			panic(fmt.Errorf("not enough bytes in buffer to read %d partition key indexes got: %d", pkeyCount, len(f.buf)))
+		}
 		pkeys := make([]int, pkeyCount)
 		for i := 0; i < pkeyCount; i++ {
 			pkeys[i] = int(f.readShort())
